@@ -469,8 +469,10 @@ pub fn tier_chroms(tier: Tier) -> usize {
 /// resolution x long values) the *resolutions* are coarsened — a different, equally legal option
 /// set — rather than the case being rejected.
 pub fn tame_zooms(bases: u64, items: u64, o: &mut Opts, budget: u64) {
+    // sections (one spawned task each) plus the sheer number of zoom records (a resolution of 1 over a
+    // quarter of a million covered bases is a quarter of a million records per level, however large the slots)
     let cost = |levels: &[u64], ips: u64| -> u64 {
-        levels.iter().map(|r| (bases / r.max(&1) + items) / ips.max(1) + 1).sum()
+        levels.iter().map(|r| (bases / r.max(&1) + items) / ips.max(1) + 1 + bases / r.max(&1) / 200).sum()
     };
     let ips = o.items_per_slot as u64;
     match &mut o.zoom {
